@@ -34,7 +34,7 @@ ensures
 fn per_path(vx_self: &GlobsetFilterer, path: PathS, file_type: Option<FileType>) -> (r: bool)
     ensures r == path_passes(vx_self, path, file_type), // OBL:C11.per_path.verdict_follows_the_glob_ignore_and_extension_rules
 //@ closure 0
-|e: OsS| -> (vx_b: bool) ensures vx_b == (e == ext)
+|e: OsS| -> (vx_b: bool) ensures vx_b == (e == ext) /* OBL:C11.per_path.verdict_follows_the_glob_ignore_and_extension_rules */
 //@ closure_ghost 0
 Ghost(|e: OsS| e == ext)
 //@ item GlobsetFilterer::check_event
@@ -42,17 +42,17 @@ Ghost(|e: OsS| e == ext)
 pub fn check_event(&self, event: &Event, priority: Priority) -> (r: Result<bool, RuntimeError>)
     ensures r is Ok, r->Ok_0 == event_passes(self, event.path_tags@), // OBL:C11.check_event.verdict_is_the_documented_rule
 //@ closure 0
-|vx_t: (PathS, Option<FileType>)| -> (vx_b: bool) ensures vx_b == in_whitelist(self, vx_t.0)
+|vx_t: (PathS, Option<FileType>)| -> (vx_b: bool) ensures vx_b == in_whitelist(self, vx_t.0) /* OBL:C11.check_event.verdict_is_the_documented_rule */
 //@ closure_let 0
 let (p, _) = vx_t;
 //@ closure_ghost 0
 Ghost(|vx_t: (PathS, Option<FileType>)| in_whitelist(self, vx_t.0))
 //@ closure 1
-|w: PathS| -> (vx_b: bool) ensures vx_b == (w == p)
+|w: PathS| -> (vx_b: bool) ensures vx_b == (w == p) /* OBL:C11.check_event.verdict_is_the_documented_rule */
 //@ closure_ghost 1
 Ghost(|w: PathS| w == p)
 //@ closure 2
-|vx_t: (PathS, Option<FileType>)| -> (vx_b: bool) ensures vx_b == path_passes(self, vx_t.0, vx_t.1)
+|vx_t: (PathS, Option<FileType>)| -> (vx_b: bool) ensures vx_b == path_passes(self, vx_t.0, vx_t.1) /* OBL:C11.check_event.verdict_is_the_documented_rule */
 //@ closure_let 2
 let (path, file_type) = vx_t;
 //@ closure_ghost 2
